@@ -7,11 +7,14 @@ CFG = {
     "required_theorems": ["RpmVerif.C04.split_partition", "RpmVerif.C04.split_bounded", "RpmVerif.C04.split_witness", "RpmVerif.C04.split_declared", "RpmVerif.C04.parser_sees_only_slices", "RpmVerif.C04.parser_alloc_bound",
                           "RpmVerif.C04.parser_calls_prefix", "RpmVerif.C04.parser_calls_faithful", "RpmVerif.C04.parse_depends_on_slices", "RpmVerif.C04.parsePackage_total", "RpmVerif.C04.parseMetadata_total", "RpmVerif.C04.decode_total",
                           "RpmVerif.C04.accepted_count_bounded", "RpmVerif.C04.accepted_sizes_bounded", "RpmVerif.C04.getFileEntries_total",
-                          "RpmVerif.C04.readside_total", "RpmVerif.C04.readerNew_total", "RpmVerif.C04.iterate_total", "RpmVerif.C04.keyIds_total"],
+                          "RpmVerif.C04.readside_total", "RpmVerif.C04.readerNew_total", "RpmVerif.C04.iterate_total", "RpmVerif.C04.keyIds_total",
+                          "RpmVerif.C04.iterator_no_runaway", "RpmVerif.C04.collectMem_total"],
     "trivial_branches": [],
     "rule": "every case runs the whole read side (Package::parse, PackageMetadata::parse, all 40 accessors, verify_digests, verify_signature with a "
             "rejecting verifier, signature_key_ids, files() iteration on uncompressed payloads) in a forked child with a panic hook, RLIMIT_AS = 3 GiB, "
-            "a counting allocator flagging any single request above 64 MiB + 16·len, and a Debug-level logger installed. Inputs: boundary-value products "
+            "a counting allocator flagging any single request above 64 MiB + 16·len, and a Debug-level logger installed; on uncompressed payloads files() is also "
+            "drained past error items like collect() does and the number / classes / contents of the items are compared with the state-machine model "
+            "(iter=<k>:<classes>:<fnv>; iter=runaway fails). Inputs: boundary-value products "
             "of intro fields (entries × store size) and of one index entry (type 0..10 × offset −1/0/len−1/len/len+1/i32 extremes × count 0/1/len/len+1/2^31/2^32−1, "
             "terminated and unterminated strings) in either header; hostile digest / signature tags; every truncation of two builder-made packages; "
             "single-byte mutations (3 values per position; every 3rd position in quick); hostile cpio headers (name length 0/4096/4097/2^32−1/bad hex, "
@@ -30,7 +33,7 @@ CFG = {
                   "explicit panic and proves it unreachable, incl. Lead::parse's unwrap), decoding never panics for any type/offset/count, every accepted entry's "
                   "count is bounded by the store length and index + store fit inside the input, and no accessor (incl. the unreachable!() arms of the list "
                   "accessors and get_file_entries) can panic. The tie and the parts outside the model (dependencies, allocator behaviour, cpio reader, signature "
-                  "code) are exercised by running the real read side on hostile inputs in a child process. Signature blobs: the OpenPGP packets handed to the pgp crate's parser are a partition of the blob, so no declared length exceeds it (split_partition, split_bounded, for every blob; the 104 MB witness of the old code is split_witness); each packet's own header declares exactly the packet's length (split_declared); for ANY packet parser, every byte string parse_signature hands to it is a non-empty contiguous slice of the blob whose declared length is its real length <= the blob (parser_sees_only_slices), all calls together are at most the blob (parser_alloc_bound), the calls are a prefix of the packet list ending at the first signature (parser_calls_prefix, parser_calls_faithful), and the result depends on the parser only through its answers on such slices (parse_depends_on_slices); model tied through the guarded hook pgp_split_packets and, for the first-signature rule, C02's sigpkts correspondence. The correspondence also drains files() past errors (iterator must end) and limits every single allocation to 4 MiB + 16 * input length.",
+                  "code) are exercised by running the real read side on hostile inputs in a child process. Signature blobs: the OpenPGP packets handed to the pgp crate's parser are a partition of the blob, so no declared length exceeds it (split_partition, split_bounded, for every blob; the 104 MB witness of the old code is split_witness); each packet's own header declares exactly the packet's length (split_declared); for ANY packet parser, every byte string parse_signature hands to it is a non-empty contiguous slice of the blob whose declared length is its real length <= the blob (parser_sees_only_slices), all calls together are at most the blob (parser_alloc_bound), the calls are a prefix of the packet list ending at the first signature (parser_calls_prefix, parser_calls_faithful), and the result depends on the parser only through its answers on such slices (parse_depends_on_slices); model tied through the guarded hook pgp_split_packets and, for the first-signature rule, C02's sigpkts correspondence. The correspondence also drains files() past errors (iterator must end) and limits every single allocation to 4 MiB + 16 * input length. The correspondence also drains files() past errors (iterator must end) and limits every single allocation to 4 MiB + 16 * input length. No runaway is now a theorem: iterator_no_runaway — for EVERY behaviour of the payload stream (any decompressor state, any position after an error) a files() iterator over n header files hands out at most n items, collect() ends within n + 1 calls and the iterator is fused from then on (FileIterator::next as a state machine, Model/FileIter.lean); collectMem_total: the items after an error are values or errors too. The drained iteration of uncompressed payloads is predicted exactly (iter=<items>:<Ok/Err classes>:<hash>) from the accessor model's file list and the in-memory stream positions every error path leaves.",
     "level_note": "Trusted: Lean kernel; model fidelity as exercised (parse ok/err class compared on every case); verify_digests / verify_signature / cpio totality "
                   "are proved in C03 / C02 / C07's models; dependencies are exercised only.",
 }
